@@ -47,8 +47,10 @@ class ParseUserData:
                     d["Data"] = hexdump(mv)
                 return json.dumps(d)
 
-        # Catch if value is None, otherwise python crashes
-        if value == None:
+        # Catch if value is None, otherwise python crashes.  A parser that
+        # hands back the JSON text 'null' (json.dumps(None)) has not produced
+        # anything either: treat it the same way so the data is not lost.
+        if value == None or value == json.dumps(None):
             d = dict()
             # in case we have problems, try to make every attempt to get some data points out
             d["Error"] = ("Parser returned a value of None for creatorID={} compID={} subType={} version={}"
